@@ -3,7 +3,7 @@
 use crate::val::{dec, Val};
 use bpaf::parsers::NamedArg;
 use bpaf::*;
-use serde_json::Value as J;
+use serde_json::{json, Value as J};
 use std::ffi::OsString;
 use std::os::unix::ffi::{OsStrExt, OsStringExt};
 
@@ -689,6 +689,12 @@ pub fn build_options(level: &J) -> OptionParser<Val> {
     for (k, f) in [("descr", 0), ("header", 1), ("footer", 2), ("usage", 3)] {
         let v = s(level, k);
         if !v.is_empty() {
+            // a description handed over as a Doc of several styled fragments (`descr_cuts`)
+            if f == 0 && level.get("descr_cuts").is_some() {
+                let probe = json!({"help": v, "help_cuts": level["descr_cuts"].clone()});
+                op = op.descr(help_doc(&probe));
+                continue;
+            }
             let v = leak(&dstr(v));
             op = match f {
                 0 => op.descr(v),
